@@ -31,6 +31,11 @@ def C19():
         r_arch.lint(chk, units)
         if C.tier() == "thorough":
             r_arch.gxx_witness(chk)
+    # scalars whose operators return expression proxies (boost::multiprecision et_on, GMP): arithmetic results that outlive
+    # their full expression are always named with the scalar type
+    npx = r_arch.proxy_free(chk)
+    chk.floor("R-ARCH.proxy", npx, 200, "library functions instantiated with the proxy archetype") if npx else None
+    r_arch.proxy_control(chk)
     # "... and work": a type with exact arithmetic has no infinity, so valid input must never divide by an exact zero
     # (repeated knots in the generator) - decided by the region evaluator on all knot multiplicity patterns
     from . import r_reg
